@@ -298,4 +298,9 @@ def instances(tier):
     out.append(reuse_instance())
     out.append(reseed_instance())
     out.append(args_untouched_bounded_instance())
+    # fit(n1) followed by fit(n2, initialization=model) == fit(n1 + n2) for all n1, n2: the prologue with a model initialisation
+    # yields the loop-head state of the uninterrupted loop, and the loop body preserves the invariant (contracts/loopinv.py)
+    from . import loopinv
+    out.append(loopinv.loop_invariant_instance('C20', 'cacgmm', False, tier))
+    out.append(loopinv.loop_invariant_instance('C20', 'cacgmm', True, tier))
     return out
